@@ -925,9 +925,11 @@ impl<'f, 'i, 't> Parser<'f, 'i, 't> {
         // OK because sign=={1,-1} and century can't be bigger than 2 digits
         // so overflow isn't possible.
         let century = sign.checked_mul(century).unwrap();
-        // Similarly, we have 64-bit integers here. Two digits multiplied by
-        // 100 will never overflow.
-        let year = century.checked_mul(100).unwrap();
+        // A width bigger than the default of two digits can be requested
+        // (e.g., `%20C`), in which case this multiplication can overflow.
+        let year = century.checked_mul(100).ok_or_else(|| {
+            err!("century number {century} is too big to convert to a year")
+        })?;
         // I believe the error condition here is impossible.
         let year = t::Year::try_new("year", year)
             .context("year number (from century) is invalid")?;
